@@ -471,8 +471,9 @@ impl<'a> LineBreaker<'a> {
         // the third pass emergency stretch is added. If the emergency stretch
         // is zero, then the two passes are the same. In this case, as an
         // optimization, we skip the third pass. This optimization is in Knuth's
-        // TeX as well.
-        let second_pass_is_final_pass = self.params.emergency_stretch.is_zero();
+        // TeX as well. A negative emergency stretch is never applied either:
+        // TeX.2021.863 sets final_pass:=(emergency_stretch<=0).
+        let second_pass_is_final_pass = self.params.emergency_stretch <= common::Scaled::ZERO;
         if let Some(v) = self.break_line_single_attempt(
             h_list,
             font_repo,
